@@ -40,6 +40,15 @@ CHECKS = {
     note="Results needing more than a double accidental and intervals above a seventh are outside the claim; one part shape.",
     technique="symbolic execution of real code (CrossHair/z3) vs diatonic arithmetic oracle",
     ref="DESIGN.md §2 C16"),
+ "C14": dict(
+    text="Symbolic execution of adjust_offsets_w_sustain / PerformedPart construction / threshold setter / PerformedNote validation on "
+         "<=3 notes and <=3 controls with symbolic real times, pedal values, controller kind and threshold(s), against a reference pedal "
+         "model written from the statement (never before release, equality cases, first later pedal-up or re-strike, monotone in the "
+         "threshold, setter recomputes); track renumbering on two parts with symbolic track numbers. Path trees exhausted per shape.",
+    note="Simultaneous pedal events excluded; coincidence of a release with a pedal event/re-strike accepts both readings. The "
+         "float32/int32 note-array view and from_note_array are checked on concrete vectors with the real numpy only.",
+    technique="symbolic execution of real code (CrossHair/z3) vs reference pedal model",
+    ref="DESIGN.md §2 C14"),
 }
 NOT_APPLICABLE = {
  "C18": "float32/transcendental codec chain (log2, 2**x, mean/std, symbolic/symbolic division) over ~600 lines of vectorised numpy: non-linear with transcendental terms, z3 answers unknown; no sound bounded encoding within reach (DESIGN.md §2 C18)",
